@@ -725,6 +725,7 @@ class TextFileLoader(
                 ifile,
                 dtype=dtype,
                 comments=self._header_comment,
+                delimiter=self._header_separator,
                 usecols=usecols,
                 ndmin=1)
 
